@@ -75,8 +75,10 @@ def offset_bytes(ctx, p):
     mm = ctx.bytes('off_m', 2, only=DIG)
     bs = [sg] + hh + ([58] if p.get('colon', True) else []) + mm
     hv, mv = num(hh), num(mm)
-    ctx.constrain(z3.And(B32(hv) <= 14, B32(mv) <= 59))
+    ctx.constrain(z3.And(B32(hv) <= 14, B32(mv) <= 59) if ctx.symbolic else (hv <= 14 and mv <= 59))
     secs = hv * 3600 + mv * 60
+    if not ctx.symbolic:
+        return bs, (-secs if sg == 45 else secs)
     return bs, z3.If(sg == 45, -secs, secs)
 
 
@@ -108,6 +110,9 @@ def c05_decision(ctx, p):
         ctx.check(want if r else b_not(want), f'is_removal = {r} but now >= `to` at the offset is {not r} for some instant on this path',
                   'expiry-decision-wrong')
     else:
+        # the implementation returned the comparison itself (no branch on it): same obligation, as one formula
+        cover_if(ctx, 'expired', r)
+        cover_if(ctx, 'not-expired', z3.Not(r))
         ctx.check(r == want, 'is_removal differs from now >= `to` at the configured offset', 'expiry-decision-wrong')
 
 
@@ -123,9 +128,14 @@ def c05_monotone(ctx, p):
     ctx.constrain(n1 <= n2)
     r1 = ctx.impl.is_removal(to, ob, n1)
     r2 = ctx.impl.is_removal(to, ob, n2)
-    if r1 is False and r2 is True:
-        ctx.cover('flips-between')
-    ctx.check(not (r1 is True and r2 is False), 'removed at an earlier instant but kept at a later one', 'not-monotone')
+    zb = lambda v: v if is_sym(v) else z3.BoolVal(bool(v))
+    if is_sym(r1) or is_sym(r2):
+        cover_if(ctx, 'flips-between', z3.And(z3.Not(zb(r1)), zb(r2)))
+        ctx.check(z3.Not(z3.And(zb(r1), z3.Not(zb(r2)))), 'removed at an earlier instant but kept at a later one', 'not-monotone')
+    else:
+        if r1 is False and r2 is True:
+            ctx.cover('flips-between')
+        ctx.check(not (r1 is True and r2 is False), 'removed at an earlier instant but kept at a later one', 'not-monotone')
 
 
 MALFORMED = [
